@@ -3,7 +3,7 @@
    name of a signal of the file, hence the signal ids are distinct.  Through the three cases of
    importMessage (no switch / one switch / several switches). *)
 From Coq Require Import String Ascii ZArith List Bool Lia.
-From Acme.C10 Require Import DbcDoc BusModel Import Proofs ProofsEnum ProofsLayout ProofsMux.
+From Acme.C10 Require Import DbcDoc BusModel Import Proofs ProofsEnum ProofsLayout ProofsFaithful ProofsMux.
 Import ListNotations.
 Open Scope Z_scope.
 
@@ -304,4 +304,104 @@ Proof.
     split; [rewrite <- E2; assumption|]. intros s' Hs'. symmetry in Hk. destruct (skel_in _ _ _ Hk Hs') as [s [Hs Hsk]].
     destruct (H3 s Hs) as [ds [D1 D2]]. exists ds.
     destruct s, s'. unfold sig_skel in Hsk. cbn in Hsk. inversion Hsk; subst. cbn in *. auto.
+Qed.
+
+(* ---------------- absolute positions and selector width in messages with one multiplexor switch ---------------- *)
+Lemma find_sig_unique : forall sigs mx, NoDup (map s_id sigs) -> In mx sigs -> find_sig sigs (s_id mx) = Some mx.
+Proof.
+  unfold find_sig. induction sigs as [|x r IH]; intros mx Hnd Hin; [destruct Hin|]. cbn [find map] in *.
+  inversion Hnd as [|? ? Hni Hr]; subst. destruct Hin as [->|Hin].
+  - rewrite Z.eqb_refl. reflexivity.
+  - destruct (s_id x =? s_id mx) eqn:E; [|apply IH; assumption].
+    apply Z.eqb_eq in E. exfalso. apply Hni. rewrite E. apply in_map. assumption.
+Qed.
+
+Lemma abs_start_top : forall fuel sigs s, s_parent s = None -> abs_start fuel sigs s = s_rel s.
+Proof. intros fuel sigs s H. destruct fuel; cbn; rewrite H; reflexivity. Qed.
+
+Lemma calc_size_sel : forall m, 0 < m < 63 -> calc_size_from_value (2 ^ m - 1) = m.
+Proof.
+  intros m H.
+  assert (E : 2 ^ m = 2 * 2 ^ (m - 1)) by (replace m with (Z.succ (m - 1)) at 1 by lia; apply Z.pow_succ_r; lia).
+  assert (Hpos : 0 < 2 ^ (m - 1)) by (apply Z.pow_pos_nonneg; lia).
+  assert (Hp : 2 ^ (m - 1) <= 2 ^ m - 1 < 2 ^ m) by lia.
+  unfold calc_size_from_value.
+  assert (H63 : 2 ^ m <= 2 ^ 62) by (apply Z.pow_le_mono_r; lia).
+  replace (2 ^ m - 1 =? 0) with false by lia. replace (2 ^ m - 1 <? 0) with false by lia.
+  replace (2 ^ m - 1 <? 2 ^ 63) with true by lia.
+  assert (Hl : Z.log2 (2 ^ m - 1) = m - 1).
+  { apply Z.log2_unique; [lia|]. replace (Z.succ (m - 1)) with m by lia. exact Hp. }
+  rewrite Hl. lia.
+Qed.
+
+Lemma switch_width : forall m, 0 <= m -> m <> 0 -> 0 < calc_value_from_size m ->
+  calc_size_from_value (calc_value_from_size m - 1) = m.
+Proof.
+  intros m H0 Hne Hg. unfold calc_value_from_size in *.
+  destruct (m <=? 0) eqn:E0; [lia|]. destruct (m <? 63) eqn:E1.
+  - apply calc_size_sel. lia.
+  - destruct (m =? 63); lia.
+Qed.
+
+Definition simple_mux_abs (dm : dmessage) (sigs : list signal) : Prop :=
+  forall mid dmx, one_muxor dm mid dmx -> 0 <= ds_size dmx ->
+  forall id ds, In (id, ds) (index_from 0 (sorted_signals dm)) ->
+    exists s, In s sigs /\ s_id s = id /\ s_name s = ds_name ds /\
+              abs_start (length sigs) sigs s = get_start_bit ds /\
+              (id = mid -> s_kind s = KMux /\ sel_width s = ds_size ds).
+
+Lemma simple_mux_abs_of : forall env dm sigs,
+  simple_mux_faithful env dm sigs -> names_ids_ok dm sigs -> simple_mux_abs dm sigs.
+Proof.
+  intros env dm sigs HF [_ [Hids _]] mid dmx Hone Hsz id ds Hin.
+  destruct (HF mid dmx Hone) as [[mx [Hmx [Hid [Hnm [Hk [Hp [Hrel [Hgc [Hne [Hgpos _]]]]]]]]]] Hall].
+  assert (Hw : sel_width mx = ds_size dmx).
+  { unfold sel_width. rewrite Hgc. apply switch_width; [assumption|assumption|rewrite <- Hgc; assumption]. }
+  destruct (Z.eq_dec id mid) as [->|Hneq].
+  - (* the switch itself *)
+    assert (ds = dmx).
+    { unfold one_muxor in Hone.
+      assert (Hf : In (mid, dmx) (filter (fun p : Z * dsignal => ds_muxor (snd p)) (index_from 0 (sorted_signals dm))))
+        by (rewrite Hone; left; reflexivity).
+      apply filter_In in Hf. destruct Hf as [Hf _].
+      pose proof (index_from_fst_nodup (sorted_signals dm) 0) as Hnd.
+      clear - Hin Hf Hnd. induction (index_from 0 (sorted_signals dm)) as [|[j d] r IH]; [destruct Hin|].
+      cbn [map fst] in Hnd. inversion Hnd as [|? ? Hni Hr]; subst.
+      destruct Hin as [Hin|Hin], Hf as [Hf|Hf].
+      - congruence.
+      - inversion Hin; subst. exfalso. apply Hni. apply (in_map fst) in Hf. exact Hf.
+      - inversion Hf; subst. exfalso. apply Hni. apply (in_map fst) in Hin. exact Hin.
+      - apply IH; assumption. }
+    subst ds. exists mx. split; [assumption|]. split; [assumption|]. split; [assumption|].
+    split; [rewrite abs_start_top by assumption; assumption|]. intros _. split; assumption.
+  - destruct (Hall id ds Hin Hneq) as [s [Hs [Hsid [Hb Hpos]]]].
+    exists s. split; [assumption|]. split; [assumption|].
+    destruct Hb as [Hbn _]. cbn [s_name place] in Hbn. split; [assumption|].
+    split; [|intros Hc; contradiction].
+    destruct Hpos as [[_ [Hsp Hsr]]|[Hsp [Hsr _]]].
+    + rewrite abs_start_top by assumption. assumption.
+    + destruct sigs as [|x r] eqn:Es; [destruct Hs|]. rewrite <- Es in *. 
+      assert (Hlen : length sigs = S (length r)) by (rewrite Es; reflexivity). rewrite Hlen.
+      cbn [abs_start]. rewrite Hsp. rewrite <- Hid. rewrite (find_sig_unique sigs mx Hids Hmx).
+      rewrite abs_start_top by assumption. rewrite Hw, Hrel, Hsr. lia.
+Qed.
+
+Theorem import_simple_mux_abs : forall d b, import d = Ok b ->
+  Forall2 (fun dm m => simple_mux_abs dm (m_signals m)) (d_messages d) (b_messages b).
+Proof.
+  intros d b H.
+  destruct (import_per_message (fun env dm sigs => simple_mux_faithful env dm sigs /\ names_ids_ok dm sigs)) with (d := d) (b := b)
+    as [se [_ HF]]; [| |assumption|].
+  - intros env st mpos dm st' sigs Hi. split.
+    + intros mid dmx Hone. eapply import_simple_mux; eauto.
+    + pose proof (import_message_signals_src _ _ _ _ _ _ Hi) as Hs. pose proof (ids_nodup _ _ Hs) as Hids.
+      destruct Hs as [HP Hnd]. split; [assumption|]. split; [assumption|].
+      intros s Hs. specialize (HP s Hs). unfold P, src_of in HP. apply in_map_iff in HP. destruct HP as [[j ds] [E Hin]].
+      exists ds. split; [apply (f_equal fst) in E; cbn [fst] in E; rewrite <- E; exact Hin|apply (f_equal snd) in E; cbn [snd] in E; symmetry; exact E].
+  - intros env dm l l' Hk [H1 [H2 [H3 H4]]]. split; [eapply simple_mux_faithful_skel; eauto|].
+    destruct (skel_names_ids _ _ Hk) as [E1 E2]. split; [rewrite <- E1; assumption|].
+    split; [rewrite <- E2; assumption|]. intros s' Hs'. symmetry in Hk. destruct (skel_in _ _ _ Hk Hs') as [s [Hs Hsk]].
+    destruct (H4 s Hs) as [ds [D1 D2]]. exists ds.
+    destruct s, s'. unfold sig_skel in Hsk. cbn in Hsk. inversion Hsk; subst. cbn in *. auto.
+  - eapply ProofsFaithful.Forall2_impl; [|exact HF]. intros dm m [A B]. eapply simple_mux_abs_of; eauto.
 Qed.
